@@ -83,7 +83,11 @@ def c10_units(tier, rng):
         rest = [f for f in INT_FORMATS if f not in ('int64', 'uint64')]
         fmts = [rng.choice(['int64', 'uint64'])] + rng.sample(rest, 2)
     hs = ['c10_none', 'c10_unknown'] + ['c10_' + f for f in fmts]
-    return [('e1', h, f'format={h[4:]}; ' + C10_SYMBOLIC) for h in hs]
+    units = [('e1', h, f'format={h[4:]}; ' + C10_SYMBOLIC) for h in hs]
+    # string / float format tables: every ASCII format string of a given length
+    lens = list(range(10)) if tier == 'thorough' else [4, rng.choice([0, 1, 2, 3, 5, 6, 7, 8, 9])]
+    units += [('e1', f'c10_fmt_len{n}', f'every ASCII format string of {n} bytes: convert_string selects the documented native type or String, convert_number f32 for "float" else f64') for n in lens]
+    return units
 
 
 def match_known(known, harness, failed_check, replay):
@@ -400,7 +404,9 @@ def c05_all(tier, rng):
 
 def c06_all(tier, rng):
     u = c10_units(tier, rng)
+    u = [x for x in u if not x[1].startswith('c10_fmt')]
     if tier != 'thorough':
+        u = [x for x in u if not x[1].startswith('c10_fmt')]
         u = u[:1] + u[2:4]       # quick: no-format + two formats (the full set is C10's quick tier)
     u += e2_select('C06', tier, rng, r'_rt_(defaults|nulldef|renamed|grid_int)_(p0|p)$|_bd_(defaults_b|nulldef_b|grid_str_b)_(p0|m0)$', 6)
     return u
